@@ -38,7 +38,7 @@ import (
 )
 
 const c17MgrHeader = `From Coq Require Import List ZArith NArith.
-From CN Require Import Peers.Pool Peers.Manager.
+From CN Require Import Peers.Pool Peers.Manager Peers.Fine.
 Import ListNotations.
 Open Scope N_scope.
 `
@@ -146,6 +146,14 @@ func c17Hash(i int) share.DataHash {
 }
 
 func c17NewMgrRun(t *testing.T, r *zv.Run, seq c17MSeq) *c17MgrRun {
+	return c17NewMgrRunWith(t, r, seq, nil, nil)
+}
+
+// c17NewMgrRunWith: wrapDS / wrapHost let the lock-granularity harness (zz_verif_c17_fine_test.go) observe the gater's
+// datastore write and Network().ClosePeer; nil = the plain objects.
+func c17NewMgrRunWith(t *testing.T, r *zv.Run, seq c17MSeq, wrapDS func(datastore.Datastore) datastore.Datastore,
+	wrapHost func(host.Host) host.Host,
+) *c17MgrRun {
 	if c17Host == nil {
 		h, err := mocknet.New().GenPeer()
 		if err != nil {
@@ -153,14 +161,22 @@ func c17NewMgrRun(t *testing.T, r *zv.Run, seq c17MSeq) *c17MgrRun {
 		}
 		c17Host = h
 	}
-	gater, err := conngater.NewBasicConnectionGater(dssync.MutexWrap(datastore.NewMapDatastore()))
+	var ds datastore.Datastore = dssync.MutexWrap(datastore.NewMapDatastore())
+	if wrapDS != nil {
+		ds = wrapDS(ds)
+	}
+	gater, err := conngater.NewBasicConnectionGater(ds)
 	if err != nil {
 		t.Fatal(err)
 	}
 	params := *DefaultParameters()
 	params.PeerCooldown = 10 * c17Unit
 	params.EnableBlackListing = seq.Enable
-	m, err := NewManager(params, c17Host, gater, "verif")
+	var mh host.Host = c17Host
+	if wrapHost != nil {
+		mh = wrapHost(mh)
+	}
+	m, err := NewManager(params, mh, gater, "verif")
 	if err != nil {
 		t.Fatal(err)
 	}
@@ -538,7 +554,9 @@ func c17MgrScripted() []c17MSeq {
 }
 
 func c17Manager(t *testing.T, r *zv.Run) {
-	gs := &c17Groups{r: r, name: "manager", header: c17MgrHeader, typ: "mcase", f: "mmismatches"}
+	// every sequential case is evaluated by BOTH models: Peers.Manager (one event per call) and Peers.Fine (the same call as a
+	// thread that runs alone from its first to its last critical section)
+	gs := &c17Groups{r: r, name: "manager", header: c17MgrHeader, typ: "mcase", f: "mfmismatches"}
 	rng := r.Rand().Fork(4)
 
 	var replay c17MSeq
